@@ -1,1 +1,67 @@
-// harness part (stub)
+// Harness helpers living inside crate::gr (child module): canonical dumps of
+// the private state of GrState / RestartingDeferral for BFS fingerprints.
+use super::*;
+
+fn fam(f: &Family) -> String {
+    format!("{}/{}", f.afi(), f.safi())
+}
+
+pub(crate) fn fp_gr(g: &GrState) -> String {
+    match &g.state {
+        Inner::Idle => "Idle".into(),
+        Inner::PeerRestarting { stale_families, llgr } => {
+            let mut s: Vec<String> = stale_families.iter().map(fam).collect();
+            s.sort();
+            let mut l: Vec<String> = llgr.as_ref().map(|l| l.families.iter().map(|(f, _)| fam(f)).collect()).unwrap_or_default();
+            l.sort();
+            format!("PeerRestarting{{{:?};llgr={:?}:{:?}}}", s, llgr.is_some(), l)
+        }
+        Inner::LlgrStaling { remaining } => {
+            let mut s: Vec<String> = remaining.iter().map(fam).collect();
+            s.sort();
+            format!("LlgrStaling{:?}", s)
+        }
+        Inner::PeerReconnected { pending, from_llgr } => {
+            let mut s: Vec<String> = pending.iter().map(fam).collect();
+            s.sort();
+            format!("PeerReconnected{{{:?};from_llgr={}}}", s, from_llgr)
+        }
+    }
+}
+
+pub(crate) fn gr_kind(g: &GrState) -> &'static str {
+    match &g.state {
+        Inner::Idle => "Idle",
+        Inner::PeerRestarting { .. } => "PeerRestarting",
+        Inner::LlgrStaling { .. } => "LlgrStaling",
+        Inner::PeerReconnected { .. } => "PeerReconnected",
+    }
+}
+
+/// Families for which the machine currently expects an End-of-RIB.
+pub(crate) fn gr_pending_eor(g: &GrState) -> Vec<Family> {
+    match &g.state {
+        Inner::PeerReconnected { pending, .. } => pending.iter().copied().collect(),
+        _ => vec![],
+    }
+}
+
+pub(crate) fn fp_restarting(rd: &RestartingDeferral) -> String {
+    let dump = |pending: &FnvHashMap<IpAddr, FnvHashSet<Family>>| {
+        let mut v: Vec<String> = pending
+            .iter()
+            .map(|(a, fs)| {
+                let mut f: Vec<String> = fs.iter().map(fam).collect();
+                f.sort();
+                format!("{a}:{:?}", f)
+            })
+            .collect();
+        v.sort();
+        format!("{:?}", v)
+    };
+    match &rd.state {
+        RestartingInner::AwaitingStart { pending, duration } => format!("Awaiting{}{:?}", dump(pending), duration.is_some()),
+        RestartingInner::Deferring { pending } => format!("Deferring{}", dump(pending)),
+        RestartingInner::Completed => "Completed".into(),
+    }
+}
